@@ -70,6 +70,28 @@ def _cls(name):
     return _OBJ_CLASSES[name]
 
 
+class _IntSub(int):
+    """an int subclass: what a declared `int` parameter admits besides int itself"""
+
+
+class _BytesSub(bytes):
+    pass
+
+
+class _StrSub(str):
+    pass
+
+
+_ENUMS = {}
+
+
+def _int_enum(n):
+    import enum
+    if n not in _ENUMS:
+        _ENUMS[n] = enum.IntEnum(f"E{len(_ENUMS)}", {"M": n}).M
+    return _ENUMS[n]
+
+
 class ArgBuild(Exception):
     """an argument object could not be built: the constructor `name` raised `exc` on (mutated) arguments"""
 
@@ -115,6 +137,24 @@ def materialize(s):
                     return c.parse(bytes.fromhex(hx))
             except Exception as e:  # noqa: BLE001
                 raise ArgBuild(name + ".parse", e) from e
+        if "isub" in s:                     # an int SUBCLASS instance (declared `int` admits it)
+            return _IntSub(s["isub"])
+        if "ienum" in s:                    # an IntEnum member
+            return _int_enum(s["ienum"])
+        if "bsub" in s:                     # a bytes subclass instance
+            return _BytesSub(bytes.fromhex(s["bsub"]))
+        if "ssub" in s:                     # a str subclass instance
+            return _StrSub(s["ssub"])
+        if "hf" in s:                       # a hash constructor (HashF = Callable[[], HashObject])
+            import hashlib
+            return getattr(hashlib, s["hf"])
+        if "curve" in s:                    # a catalogue curve
+            from btclib.curves import curve as _cv
+            return _cv.CURVES[s["curve"]]
+        if "iter" in s:                     # a one-shot iterator (Iterable[...])
+            return iter([materialize(x) for x in s["iter"]])
+        if "set" in s:
+            return {materialize(x) for x in s["set"]}
         if "dec" in s:
             return Decimal(s["dec"])
         if "flag" in s:
